@@ -2,8 +2,10 @@ package main
 
 import (
 	"fmt"
+	"os"
 	"strings"
 	"sync"
+	"time"
 
 	"github.com/casbin/casbin/v2/util"
 )
@@ -1151,6 +1153,10 @@ func c09Gcd(a, b int) int {
 
 func init() {
 	register("C09", func(c *Ctx) {
+		if ph := os.Getenv(c09PhaseEnv); ph != "" {
+			c09ChildMain(c, ph)
+			return
+		}
 		g := &c09Gen{c: c, keep: 97}
 		nHostile, nIP := 2500, 6000
 		if c.Thorough() {
@@ -1166,5 +1172,11 @@ func init() {
 		g.funcs()
 		g.ips(nIP)
 		g.concurrent()
+		limit := 120 * time.Second
+		if c.Thorough() {
+			limit = 900 * time.Second
+		}
+		c09RunChild(c, "cold", limit, "16 goroutines, first use of fresh patterns on a cold regexp cache")
+		c09RunChild(c, "poison", limit, "panicking calls followed by valid calls under a watchdog")
 	})
 }
